@@ -8,7 +8,7 @@ R5 span lifecycle events go through on_event once, under their FmtSpan flag
 """
 from rulekit import Facts, where, proj_names
 from rulekit.sym import PathEval, show
-from rulekit.query import norm_cmp, guards_of, recv_fields
+from rulekit.query import norm_cmp, guards_of, recv_fields, result_test
 
 FS = "<tracing_subscriber::fmt::fmt_subscriber::Subscriber<C, N, E, W> as tracing_subscriber::subscribe::Subscribe<C>>::"
 W = "tracing_subscriber::fmt::writer::"
@@ -54,8 +54,9 @@ def r1_r2(ck, F, r1id="C13.R1", r2id="C13.R2"):
     for n, p in enumerate(paths):
         mk = [c for c in p.calls if c[1].get("trait") == MW and c[1].get("method") in ("make_writer_for", "make_writer")]
         wr = [c for c in p.calls if c[1].get("trait") == IOW]
-        fmt_ok = [c for c in p.conds if c[0][0] == "call" and c[0][1].endswith("is_ok") and "format_event" in show(c[0])]
-        formatted = bool(fmt_ok) and fmt_ok[0][1] != 0
+        # `if fmt.format_event(..).is_ok()`, `.is_err()` negated, or a `match` on the Result
+        fmt_ok = [result_test(c)[1] for c in p.conds if result_test(c)[0] is not None and "format_event(" in show(result_test(c)[0])]
+        formatted = bool(fmt_ok) and fmt_ok[0] is True
         key = "path#%d (%s)" % (n, "formatted" if formatted else "format error")
         problems = []
         if len(mk) > 1:
